@@ -192,13 +192,19 @@ Record minus (g0 g : sgraph) (R : list nat) : Prop := {
 Definition justified (g0 : sgraph) (R : list nat) (x : nat) : Prop :=
   exists c, In c (sg_out g0 x) /\ (sg_label g0 c = Some GFalse \/ In c R).
 
+(* dead: an And with a F child, or with a dead child *)
+Inductive gdead (g : sgraph) : nat -> Prop :=
+| gd_false x c : sg_label g x = Some GAnd -> In c (sg_out g x) -> sg_label g c = Some GFalse -> gdead g x
+| gd_dead x c : sg_label g x = Some GAnd -> In c (sg_out g x) -> gdead g c -> gdead g x.
+
 (* loop invariant of delete_parent_and_chain with `pend` = current :: current_vec *)
 Record chain_inv (g0 g : sgraph) (R pend : list nat) : Prop := {
   ci_minus : minus g0 g R;
   ci_just : forall x, In x R -> justified g0 R x;
   ci_pend : forall q, In q pend -> sg_label g0 q = Some GAnd -> ~ In q R -> justified g0 R q;
   ci_up : forall x p, In x R -> In (p, x) (sg_edges g0) -> sg_label g0 p = Some GAnd ->
-          In p R \/ In p pend
+          In p R \/ In p pend;
+  ci_dead : forall x, In x R -> gdead g0 x
 }.
 
 Lemma justified_mono g0 R R' x : incl R R' -> justified g0 R x -> justified g0 R' x.
@@ -228,11 +234,15 @@ Lemma chain_step_remove g0 g R cur stk : chain_inv g0 g R (cur :: stk) ->
   sg_label g cur = Some GAnd ->
   chain_inv g0 (remove_node cur g) (cur :: R) (rev (sg_in g cur) ++ stk).
 Proof.
-  intros [Hm Hj Hp Hu] Hc.
+  intros [Hm Hj Hp Hu Hd] Hc.
   assert (Hnr : ~ In cur R) by (intros Hin; destruct (mi_dead _ _ _ Hm cur Hin) as [_ E]; congruence).
   assert (Hc0 : sg_label g0 cur = Some GAnd) by (rewrite <- (mi_live _ _ _ Hm cur Hnr); exact Hc).
   assert (Hinc : incl R (cur :: R)) by (intros y Hy; now right).
-  constructor.
+  assert (Hdc : gdead g0 cur).
+  { destruct (Hp cur (or_introl eq_refl) Hc0 Hnr) as [c [Hc1 [Hc2|Hc2]]].
+    - exact (gd_false g0 cur c Hc0 Hc1 Hc2).
+    - apply (gd_dead g0 cur c Hc0 Hc1). now apply Hd. }
+  constructor; [| | | |intros x [<-|Hx]; [exact Hdc|now apply Hd]].
   - now apply minus_remove.
   - intros x [<-|Hx].
     + apply (justified_mono g0 R); [exact Hinc|]. apply Hp; [now left|exact Hc0|exact Hnr].
@@ -262,10 +272,10 @@ Qed.
 Lemma chain_step_skip g0 g R cur stk t : chain_inv g0 g R (cur :: stk) ->
   sg_label g cur = Some t -> t <> GAnd -> chain_inv g0 g R stk.
 Proof.
-  intros [Hm Hj Hp Hu] Hc Ht.
+  intros [Hm Hj Hp Hu Hd] Hc Ht.
   assert (Hnr : ~ In cur R) by (intros Hin; destruct (mi_dead _ _ _ Hm cur Hin) as [_ E]; congruence).
   assert (Hc0 : sg_label g0 cur = Some t) by (rewrite <- (mi_live _ _ _ Hm cur Hnr); exact Hc).
-  constructor; [exact Hm|exact Hj| |].
+  constructor; [exact Hm|exact Hj| | |exact Hd].
   - intros q Hq. apply Hp. now right.
   - intros x p Hx Hpx Hlp. destruct (Hu x p Hx Hpx Hlp) as [H|[<-|H]]; [now left| |now right].
     congruence.
@@ -340,7 +350,7 @@ Proof. induction es as [|e es IH]; [reflexivity|]. cbn. now rewrite IH. Qed.
 
 Lemma chain_shrink g0 g' R : chain_inv g0 g' R [] -> shrink g0 g'.
 Proof.
-  intros [Hm Hj _ Hu].
+  intros [Hm Hj _ Hu _].
   assert (Hnr : forall x, sg_alive g' x = true -> ~ In x R).
   { intros x Ha Hin. destruct (mi_dead _ _ _ Hm x Hin) as [_ E]. unfold sg_alive in Ha. now rewrite E in Ha. }
   assert (Hkeep : forall x t, sg_label g0 x = Some t -> t <> GAnd -> sg_label g' x = Some t).
@@ -381,7 +391,8 @@ Proof.
     - constructor; [exact HI|intros x []|reflexivity|now rewrite notin_nil].
     - intros x [].
     - intros q [<-|[]] _ _. exists c. split; [exact Hc|now left].
-    - intros x p []. }
+    - intros x p [].
+    - intros x []. }
   split; [apply (mi_inv _ _ _ (ci_minus _ _ _ _ HC))|now apply (chain_shrink g g' R')].
 Qed.
 
